@@ -208,7 +208,7 @@ section Examples
 private def exOps : List (Op Nat) :=
   [.push ⟨1, 0⟩ 7, .push ⟨2, 0⟩ 7, .push ⟨3, 0⟩ 2, .push ⟨2, 5⟩ 1, .changePriority 3 7, .changePriorityBy 1 (· - 3),
    .pushIncrease ⟨4, 0⟩ 6, .pushDecrease ⟨4, 0⟩ 5, .pushIncrease ⟨4, 0⟩ 9, .remove 1, .getMut 2 (fun it => ⟨it.key, 8⟩),
-   .extend 0 #[(⟨5, 0⟩, 9), (⟨6, 0⟩, 3)], .append #[(⟨7, 0⟩, 4), (⟨5, 1⟩, 0)],
+   .extend 0 #[(⟨5, 0⟩, 9), (⟨6, 0⟩, 3)], .append (Store.fromVec #[(⟨7, 0⟩, 4), (⟨5, 1⟩, 0)]),
    .iterMut false [(.next, ⟨some 0, none⟩), (.next, ⟨none, some 1⟩), (.next, ⟨some 12, none⟩)],
    .retainMut (fun it p => (p != 3, it, p)), .popFrontIf (fun it p => (p == 12, it, p)), .capacityOp,
    .peekFrontMut (fun it => ⟨it.key, 99⟩), .convert, .popBack, .convert]
@@ -216,7 +216,7 @@ private def exOps : List (Op Nat) :=
 example : (∀ op ∈ exOps, op.Legal) ∧ (∀ op ∈ exOps, op.isLeak = false) := by
   constructor <;> intro op h <;> simp only [exOps, List.mem_cons, List.not_mem_nil, or_false] at h <;>
     rcases h with h | h | h | h | h | h | h | h | h | h | h | h | h | h | h | h | h | h | h | h | h <;> subst h <;>
-    first | exact trivial | rfl | (intro _; rfl) | (intro _ _; rfl)
+    first | exact trivial | rfl | (intro _; rfl) | (intro _ _; rfl) | (show Store.WF _; decide +kernel) | (show _ ∧ _ < capLimit; decide +kernel)
 
 -- the history runs, ends as a `PriorityQueue` satisfying the invariant, and `peek` shows a maximum of what is stored
 example : hist_okR (run (Q.new .pq) exOps) (fun r => r.1.kind = .pq ∧ MaxQ.Inv r.1.s ∧ r.1.s.size = 3 ∧
